@@ -32,6 +32,14 @@ func isNFKDCall(c ssa.CallInstruction, v ssa.Value) bool {
 	if !strings.HasPrefix(name, "(golang.org/x/text/unicode/norm.Form).") {
 		return false
 	}
+	if mc, ok := cc.Value.(*ssa.MakeClosure); ok && (callee.Name() == "String$bound" || callee.Name() == "Bytes$bound") {
+		// the method value norm.NFKD.String held in a local (`nfkd := norm.NFKD.String; nfkd(s)`)
+		if len(mc.Bindings) != 1 || len(cc.Args) != 1 {
+			return false
+		}
+		f, ok := intConst(mc.Bindings[0])
+		return ok && f == int64(norm.NFKD) && cc.Args[0] == v
+	}
 	switch callee.Name() {
 	case "String", "Bytes", "AppendString", "Append":
 	default:
@@ -78,6 +86,20 @@ func onlyEmptinessTest(n ssa.Value) bool {
 		any = true
 	}
 	return any
+}
+
+// isBoundNFKDString: the method value norm.NFKD.String (or .Bytes).
+func isBoundNFKDString(fv FuncV) bool {
+	if fv.Fn == nil || len(fv.Bindings) != 1 {
+		return false
+	}
+	n := fv.Fn.String()
+	if n != "(golang.org/x/text/unicode/norm.Form).String$bound" && n != "(golang.org/x/text/unicode/norm.Form).Bytes$bound" {
+		return false
+	}
+	f, ok := fv.Bindings[0].(IntV)
+	c, okc := f.Const()
+	return ok && okc && c == int64(norm.NFKD)
 }
 
 func (a *Analysis) rawUses(root ssa.Value) (bad []rawUse, sanitised int) {
@@ -143,6 +165,21 @@ func (a *Analysis) rawUses(root ssa.Value) (bad []rawUse, sanitised int) {
 				}
 				cc := x.Common()
 				callee := cc.StaticCallee()
+				if callee == nil && !cc.IsInvoke() {
+					// a call through a function-valued package variable that only its declaration
+					// assigns (a seam): the function it holds
+					if gl := loadedGlobal(cc.Value); gl != nil && a.G.SeamOK[gl] {
+						if fv, ok := a.G.Init[gl].(FuncV); ok && fv.Fn != nil {
+							if isBoundNFKDString(fv) && len(cc.Args) == 1 && cc.Args[0] == v {
+								sanitised++
+								continue
+							}
+							if len(fv.Bindings) == 0 {
+								callee = fv.Fn
+							}
+						}
+					}
+				}
 				if callee != nil && len(callee.Blocks) > 0 && callee.Pkg != nil && a.P.InModule(callee.Pkg) {
 					for i, arg := range cc.Args {
 						if arg == v && i < len(callee.Params) {
@@ -401,6 +438,9 @@ func (a *Analysis) ruleF2() {
 		case "golang.org/x/crypto/pbkdf2.Key", "(golang.org/x/text/unicode/norm.Form).String", "(golang.org/x/text/unicode/norm.Form).Bytes",
 			"(golang.org/x/text/unicode/norm.Form).AppendString", "(golang.org/x/text/unicode/norm.Form).Append", "len", "cap", "append":
 		default:
+			if a.counterBump(c.Instr) {
+				continue // counts the call: nothing reads the counter on this path (E1 class "counter")
+			}
 			r.Bad("F2", fk+"/extra-call", a.P.InstrPos(c.Instr), "", "%s also calls %s: the seed must be a function of the two NFKD forms only", fk, c.Callee)
 		}
 	}
@@ -436,6 +476,13 @@ func (a *Analysis) ruleF3() {
 	fns := []*ssa.Function{fn}
 	for f := range a.moduleCallees(fn) {
 		fns = append(fns, f)
+	}
+	// the wrappers that forward to fn may be where the source is named
+	// (`return newMnemonic(cryptoRander, n, lang)`)
+	for _, w := range a.API[fn] {
+		if w != fn {
+			fns = append(fns, w)
+		}
 	}
 	for _, f := range fns {
 		for _, b := range f.Blocks {
@@ -624,7 +671,7 @@ func (a *Analysis) ruleF3() {
 				// (e) exits
 				okE := true
 				okS := true
-				for _, x := range topExits(e, fn) {
+				for _, x := range delegatedExits(e, fn) {
 					if len(x.Vals) != 2 {
 						continue
 					}
@@ -862,6 +909,24 @@ func (a *Analysis) ruleE1() {
 		}
 		esc := a.Ef.Escapes[g]
 		switch {
+		case isMutexType(et) && a.mutexDiscipline(g) == "":
+			// a lock: it holds no data; used only as `mu.Lock(); defer mu.Unlock()` (or the read
+			// pair), never re-acquired by a function called while it is held
+			classes["mutex"]++
+			r.OK("E1", key, pos, "", "mutex: every Lock/RLock is followed at once by the matching deferred unlock, and nothing called while it is held locks it again")
+		case isMutexType(et):
+			r.Unk("E1", key, pos, "", "mutex %s: %s", g.Name(), a.mutexDiscipline(g))
+		case isCounterType(et) && a.counterDiscipline(g) == "":
+			// an event counter: only ever touched through sync/atomic, and read only by an
+			// accessor the library itself never calls — no result can depend on it, no race
+			classes["counter"]++
+			r.OK("E1", key, pos, "", "counter: only sync/atomic Add/Load/Store, read only by accessors that no module code calls")
+		case a.G.PoolElem[g] != nil:
+			// a typed free list: goroutine-safe by construction, only Get and Put touch it, and
+			// what Get yields is treated as holding unknown content (so nothing can come to depend
+			// on what an earlier call left there without a rule noticing)
+			classes["pool"]++
+			r.OK("E1", key, pos, "", "sync.Pool used as a free list of %v: only Get/Put, content unknown on Get", a.G.PoolElem[g])
 		case isOnce(et):
 			// a guard: never assigned, address used only as the receiver of Do
 			bad := false
@@ -911,6 +976,18 @@ func (a *Analysis) ruleE1() {
 			// an object behind an interface- or function-typed variable: the module cannot write its
 			// memory directly, but every method call on it may change its state, which all callers share
 			if _, isIface := et.Underlying().(*types.Interface); isIface && !isErrorType(et) {
+				seenInv := map[ssa.Instruction]bool{}
+				for _, c := range a.Ef.Invokes[g] {
+					if a.P.IsTestFunc(c.Parent()) || seenInv[c] {
+						continue
+					}
+					seenInv[c] = true
+					if _, direct := c.Common().Value.(*ssa.UnOp); direct {
+						continue // reported below
+					}
+					r.Bad("E1", key, a.P.InstrPos(c), "", "%s calls %s on the object held in package-level variable %s (handed down as an argument): a stateful object shared by all calls and goroutines", fnKey(c.Parent()), c.Common().Method.Name(), g.Name())
+					bad = true
+				}
 				for _, ld := range a.Ef.Loads[g] {
 					if a.P.IsTestFunc(ld.Parent()) {
 						continue
@@ -1135,6 +1212,7 @@ func (a *Analysis) ruleS2() {
 		}
 	}
 	seenClass := map[string]bool{}
+	unkExits := 0 // exits the classification could not read
 	for _, W := range a.Gate3.passed() {
 		W := W
 		for _, lc := range a.langCtxs() {
@@ -1160,6 +1238,11 @@ func (a *Analysis) ruleS2() {
 							r.OK("S2e", key, xp, ctx.Name, "unsupported language: every lookup fails, a non-nil error is returned")
 							continue
 						}
+					}
+					if ev.Kind == ekNil && checksumExitInLoop(e, fn, csSent) {
+						unkExits++
+						r.Unk("S2a+S2s", key, xp, ctx.Name, "this exit returns nil after a loop that returns the checksum error from inside: the comparison is made piece by piece, which is not one of the recognised forms")
+						continue
 					}
 					rule := "S2a+S2s"
 					if ev.Kind != ekNil {
@@ -1212,6 +1295,7 @@ func (a *Analysis) ruleS2() {
 					}
 					eq := (c.Op == token.EQL) == (first.Taken != bv.Neg)
 					if c.Op != token.EQL && c.Op != token.NEQ {
+						unkExits++
 						r.Unk("S2a+S2s+S2c", key, xp, ctx.Name, "exit controlled by %v", bv)
 						continue
 					}
@@ -1260,6 +1344,7 @@ func (a *Analysis) ruleS2() {
 					if ev.Kind == ekNil {
 						r.Bad("S2a+S2s", key, xp, ctx.Name, "return nil under %v: acceptance must be decided by the checksum comparison alone", bv)
 					} else {
+						unkExits++
 						r.Unk("S2a+S2c", key, xp, ctx.Name, "exit controlled by %v is none of count-reject, unknown-token, checksum-reject, accept", bv)
 					}
 				}
@@ -1268,6 +1353,11 @@ func (a *Analysis) ruleS2() {
 	}
 	for _, cl := range []string{"miss", "checksum", "accept"} {
 		if !seenClass[cl] {
+			if unkExits > 0 {
+				// some exits could not be classified: the missing class may be among them
+				r.Unk(map[bool]string{true: "S2a+S2c", false: "S2e"}[cl == "accept"], fk+"/class/"+cl, a.P.Pos(fn.Pos()), "", "no %s exit was recognised among the exits of CheckMnemonic (%d of them could not be classified)", cl, unkExits)
+				continue
+			}
 			r.Bad(map[bool]string{true: "S2a+S2c", false: "S2e"}[cl == "accept"], fk+"/class/"+cl, a.P.Pos(fn.Pos()), "", "CheckMnemonic has no %s exit", cl)
 		}
 	}
@@ -1532,6 +1622,298 @@ func (a *Analysis) finishE1() {
 	}
 }
 
+func isMutexType(t types.Type) bool {
+	n, ok := t.(*types.Named)
+	return ok && n.Obj().Pkg() != nil && n.Obj().Pkg().Path() == "sync" && (n.Obj().Name() == "Mutex" || n.Obj().Name() == "RWMutex")
+}
+
+// isCounterType: an integer that sync/atomic can work on, one of sync/atomic's integer types,
+// or a struct or array of those.
+func isCounterType(t types.Type) bool {
+	if n, ok := t.(*types.Named); ok && n.Obj().Pkg() != nil && n.Obj().Pkg().Path() == "sync/atomic" {
+		switch n.Obj().Name() {
+		case "Int32", "Int64", "Uint32", "Uint64":
+			return true
+		}
+		return false
+	}
+	switch u := t.Underlying().(type) {
+	case *types.Basic:
+		switch u.Kind() {
+		case types.Int32, types.Int64, types.Uint32, types.Uint64, types.Uintptr:
+			return true
+		}
+	case *types.Struct:
+		if u.NumFields() == 0 {
+			return false
+		}
+		for i := 0; i < u.NumFields(); i++ {
+			if !isCounterType(u.Field(i).Type()) {
+				return false
+			}
+		}
+		return true
+	case *types.Array:
+		return isCounterType(u.Elem())
+	}
+	return false
+}
+
+// counterDiscipline checks that the package-level variable g is an event counter that cannot
+// influence a result or race: "" if it has a counter type, is never assigned or read directly,
+// every use of its address (or of the address of a field or element of it) is the first
+// argument of a sync/atomic Add/Load/Store function or the receiver of the Add/Load/Store
+// method of a sync/atomic integer, a function that reads it (Load, or the value Add returns)
+// has no caller in the module outside tests and is never used as a function value — an
+// accessor the library itself never consults — otherwise what is wrong.
+func (a *Analysis) counterDiscipline(g *ssa.Global) string {
+	if !isCounterType(g.Type().(*types.Pointer).Elem()) {
+		return "not a counter type"
+	}
+	// functions that some non-test module code calls or takes as a value
+	if a.calledFns == nil {
+		a.calledFns = map[*ssa.Function]bool{}
+		for _, fn := range a.P.ModuleFuncs(false) {
+			for _, b := range fn.Blocks {
+				for _, in := range b.Instrs {
+					for _, op := range in.Operands(nil) {
+						if f, ok := (*op).(*ssa.Function); ok {
+							a.calledFns[f] = true
+						}
+					}
+				}
+			}
+		}
+	}
+	var bad string
+	var use func(ptr ssa.Value, depth int)
+	use = func(ptr ssa.Value, depth int) {
+		if ptr.Referrers() == nil && depth > 0 {
+			return
+		}
+		check := func(in ssa.Instruction) {
+			if bad != "" || a.P.IsTestFunc(in.Parent()) {
+				return
+			}
+			switch x := in.(type) {
+			case *ssa.DebugRef:
+			case *ssa.FieldAddr:
+				if x.X == ptr && depth < 4 {
+					use(x, depth+1)
+					return
+				}
+				bad = "its address is used at " + a.P.InstrPos(in)
+			case *ssa.IndexAddr:
+				if x.X == ptr && depth < 4 {
+					use(x, depth+1)
+					return
+				}
+				bad = "its address is used at " + a.P.InstrPos(in)
+			case *ssa.Call:
+				name := calleeName(x)
+				args := x.Call.Args
+				if len(args) == 0 || args[0] != ptr {
+					bad = "its address is passed to " + name + " at " + a.P.InstrPos(in)
+					return
+				}
+				for _, other := range args[1:] {
+					if other == ptr {
+						bad = "its address is passed to " + name + " at " + a.P.InstrPos(in)
+						return
+					}
+				}
+				reads := false
+				switch {
+				case strings.HasPrefix(name, "sync/atomic.Add"), strings.HasPrefix(name, "(*sync/atomic.") && strings.HasSuffix(name, ").Add"):
+					if refs := x.Referrers(); refs != nil {
+						for _, r := range *refs {
+							if _, dbg := r.(*ssa.DebugRef); !dbg {
+								reads = true
+							}
+						}
+					}
+				case strings.HasPrefix(name, "sync/atomic.Load"), strings.HasPrefix(name, "(*sync/atomic.") && strings.HasSuffix(name, ").Load"):
+					reads = true
+				case strings.HasPrefix(name, "sync/atomic.Store"), strings.HasPrefix(name, "(*sync/atomic.") && strings.HasSuffix(name, ").Store"):
+				default:
+					bad = "it is handed to " + name + " at " + a.P.InstrPos(in)
+					return
+				}
+				if reads {
+					f := in.Parent()
+					api := false
+					for _, name := range []string{"NewMnemonicByEntropy", "NewMnemonic", "CheckMnemonic", "IsMnemonicValid", "MnemonicToSeed"} {
+						if f == a.P.Root.Func(name) {
+							api = true
+						}
+					}
+					if f == a.Str || (f.Signature.Recv() != nil && f.Name() == "String") {
+						api = true
+					}
+					if f.Parent() != nil || a.calledFns[f] || api {
+						bad = "its value is read in " + fnKey(f) + " (" + a.P.InstrPos(in) + "), which is part of the API the properties speak of, or which the library itself calls or passes around"
+					}
+				}
+			default:
+				bad = "it is used directly at " + a.P.InstrPos(in)
+			}
+		}
+		if depth == 0 {
+			for _, fn := range a.P.ModuleFuncs(false) {
+				for _, b := range fn.Blocks {
+					for _, in := range b.Instrs {
+						for _, op := range in.Operands(nil) {
+							if *op == ptr {
+								check(in)
+							}
+						}
+					}
+				}
+			}
+			return
+		}
+		for _, r := range *ptr.Referrers() {
+			check(r)
+		}
+	}
+	use(g, 0)
+	return bad
+}
+
+// isCounter: g is an event counter in the sense of counterDiscipline (cached).
+func (a *Analysis) isCounter(g *ssa.Global) bool {
+	if a.counters == nil {
+		a.counters = map[*ssa.Global]bool{}
+	}
+	v, done := a.counters[g]
+	if !done {
+		v = isCounterType(g.Type().(*types.Pointer).Elem()) && a.counterDiscipline(g) == ""
+		a.counters[g] = v
+	}
+	return v
+}
+
+// counterRoot: the package-level variable ptr points into (itself, or through field and
+// element addresses).
+func counterRoot(ptr ssa.Value) *ssa.Global {
+	for i := 0; i < 6; i++ {
+		switch x := ptr.(type) {
+		case *ssa.Global:
+			return x
+		case *ssa.FieldAddr:
+			ptr = x.X
+		case *ssa.IndexAddr:
+			ptr = x.X
+		default:
+			return nil
+		}
+	}
+	return nil
+}
+
+// counterBump: in is a sync/atomic call whose first argument points into an event counter.
+func (a *Analysis) counterBump(in ssa.Instruction) bool {
+	c, ok := in.(*ssa.Call)
+	if !ok || len(c.Call.Args) == 0 {
+		return false
+	}
+	name := calleeName(c)
+	if !strings.HasPrefix(name, "sync/atomic.") && !strings.HasPrefix(name, "(*sync/atomic.") {
+		return false
+	}
+	g := counterRoot(c.Call.Args[0])
+	return g != nil && g.Pkg != nil && a.P.InModule(g.Pkg) && a.isCounter(g)
+}
+
+// mutexDiscipline checks how the package-level mutex g is used; "" if every use is
+// `g.Lock(); defer g.Unlock()` (or RLock/RUnlock) with the defer right after the lock in the
+// same block, the variable is never assigned or copied, and no module function reachable
+// from a function that locks g locks g itself (self-deadlock); otherwise what is wrong.
+func (a *Analysis) mutexDiscipline(g *ssa.Global) string {
+	for _, w := range a.Ef.Writes[g] {
+		if !w.Test {
+			return "it is assigned (" + a.P.InstrPos(w.Instr) + ")"
+		}
+	}
+	if len(a.Ef.Loads[g]) > 0 {
+		for _, ld := range a.Ef.Loads[g] {
+			if !a.P.IsTestFunc(ld.Parent()) {
+				return "it is copied by value (" + a.P.InstrPos(ld) + ")"
+			}
+		}
+	}
+	lockers := map[*ssa.Function]bool{}
+	for _, u := range a.Ef.AddrUse[g] {
+		if a.P.IsTestFunc(u.Parent()) {
+			continue
+		}
+		var cc *ssa.CallCommon
+		_, isDefer := u.(*ssa.Defer)
+		if c, ok := u.(ssa.CallInstruction); ok {
+			cc = c.Common()
+		}
+		if cc == nil || len(cc.Args) != 1 || cc.Args[0] != ssa.Value(g) || cc.StaticCallee() == nil {
+			return "its address is used other than as the receiver of a lock method (" + a.P.InstrPos(u) + ")"
+		}
+		m := cc.StaticCallee().Name()
+		switch m {
+		case "Lock", "RLock":
+			if isDefer {
+				return "a lock is taken in a defer (" + a.P.InstrPos(u) + ")"
+			}
+			// the next instruction in the block must be the deferred matching unlock
+			want := "Unlock"
+			if m == "RLock" {
+				want = "RUnlock"
+			}
+			blk := u.Block()
+			okPair := false
+			for i, in := range blk.Instrs {
+				if in != u {
+					continue
+				}
+				for _, nx := range blk.Instrs[i+1:] {
+					if _, dbg := nx.(*ssa.DebugRef); dbg {
+						continue
+					}
+					if d, ok := nx.(*ssa.Defer); ok && d.Call.StaticCallee() != nil && d.Call.StaticCallee().Name() == want && len(d.Call.Args) == 1 && d.Call.Args[0] == ssa.Value(g) {
+						okPair = true
+					}
+					break
+				}
+			}
+			if !okPair {
+				return m + " is not followed at once by `defer " + g.Name() + "." + want + "()` (" + a.P.InstrPos(u) + ")"
+			}
+			fn := u.Parent()
+			for fn.Parent() != nil {
+				fn = fn.Parent()
+			}
+			lockers[u.Parent()] = true
+		case "Unlock", "RUnlock":
+			if !isDefer {
+				return "an unlock that is not deferred (" + a.P.InstrPos(u) + ")"
+			}
+		default:
+			return "method " + m + " is called on it (" + a.P.InstrPos(u) + ")"
+		}
+	}
+	// nothing called from a locking function locks the same mutex
+	for fn := range lockers {
+		for callee := range a.reachableFrom(fn) {
+			if callee != fn && lockers[callee] {
+				return fnKey(fn) + " holds it while calling " + fnKey(callee) + ", which locks it again"
+			}
+		}
+		for _, c := range callsIn(fn) {
+			if callee := c.Common().StaticCallee(); callee == fn {
+				return fnKey(fn) + " calls itself while holding it"
+			}
+		}
+	}
+	return ""
+}
+
 func hasKey(key string, fns ...*ssa.Function) bool {
 	for _, f := range fns {
 		if f != nil && strings.HasPrefix(key, fnKey(f)+"|") {
@@ -1547,6 +1929,9 @@ func (a *Analysis) touchesPackageState(f *ssa.Function) bool {
 		for _, in := range b.Instrs {
 			for _, op := range in.Operands(nil) {
 				if g, ok := (*op).(*ssa.Global); ok && g.Pkg != nil && a.P.InModule(g.Pkg) {
+					if a.isCounter(g) {
+						continue // an event counter: nothing can depend on it (E1 class "counter")
+					}
 					return true
 				}
 			}
@@ -1566,6 +1951,9 @@ func (a *Analysis) touchesPackageStateExceptLoads(f *ssa.Function) bool {
 			}
 			for _, op := range in.Operands(nil) {
 				if g, ok := (*op).(*ssa.Global); ok && g.Pkg != nil && a.P.InModule(g.Pkg) {
+					if a.isCounter(g) {
+						continue // an event counter: nothing can depend on it (E1 class "counter")
+					}
 					return true
 				}
 			}
